@@ -245,7 +245,7 @@ def run(ctx):
     # --- K: the Gallina models of Floyd's tables and of the repaired Dijkstra loop give the same link counts
     kcases_f, kcases_d, kkeys = [], [], []
     for gi, (n, decl) in enumerate(graphs):
-        if n > 10 or (gi, "floyd") not in tables or (gi, "dijkstra") not in tables:
+        if n > 30 or (gi, "floyd") not in tables or (gi, "dijkstra") not in tables:
             continue
         es, lid = ginfo[gi]
         loops = [(i, i, [9999]) for i in range(n)]          # do_seal adds the loopback edges after the declared ones
@@ -282,7 +282,7 @@ META = {
             "real code (route a->b never returns) and repaired (fix commit in KNOWN_FINDINGS.txt).",
     "note": "Translation-validation style: minimality is decided per generated graph by verified checkers applied to the implementation's "
             "answers, not by a theorem about the Floyd-Warshall/Dijkstra code for all graphs. The Gallina models of Floyd's in-place "
-            "tables and of the (repaired) Dijkstra loop are only tied by link-count comparison on graphs <= 10 nodes; no minimality "
+            "tables and of the (repaired) Dijkstra loop are only tied by link-count comparison (all generated graphs, <= 30 nodes); no minimality "
             "theorem is proved about them. Not modelled: netzone routes with gateways inside these zones (C24), the route cache "
             "invalidation of DijkstraCache. Trusted: Coq kernel, extraction, routing_drv, the Python generator and link-name mapping.",
     "technique": "verified certificate checkers (Coq) applied to the implementation's all-pairs routes + model correspondence",
